@@ -1,6 +1,6 @@
 (* C01 — Selected data are the stored samples at the selected coordinates (all formats).  Only statements here.
    Model / spec / wire: Model/DataSet.v (on top of Model/Select.v, Base/NdArray.v, Model/Flags.v);
-   proofs: Proofs/DataSetBaseP.v, DataSetP.v, DataSetTopP.v, DataSetExP.v.
+   proofs: Proofs/DataSetBaseP.v, DataSetP.v, DataSetTopP.v, DataSetExP.v, DataSetSensP.v.
 
    Reading guide.  [run c (start c) h = Some d]: the history h of select() calls, indexer acquisitions
    (x = d.vis | d.flags | d.weights | d.raw_flags | d.timestamps), reads and observations was carried out from the
@@ -10,7 +10,8 @@
    selection state are the data set's dumps, channels and the positions of its corr_products. *)
 From Coq Require Import ZArith QArith List Bool String.
 From KV Require Import Base.Sx Base.Str Base.SelSlice Base.PySlice Base.AxisIndex Base.NdArray Gen.Generated
-  Model.Flags Model.DataSet Proofs.DataSetBaseP Proofs.DataSetP Proofs.DataSetTopP Proofs.DataSetExP.
+  Model.Flags Model.DataSet Proofs.DataSetBaseP Proofs.DataSetP Proofs.DataSetTopP Proofs.DataSetExP
+  Proofs.DataSetSensP.
 From KV Require Model.Select Proofs.SelectP.
 Import ListNotations.
 Open Scope Z_scope.
@@ -205,6 +206,95 @@ Theorem C01_timestamps_documented : forall c h d, cfg_ok c -> run c (start c) h 
   Forall2 Qeq (timestamps c (ds_sel d)) (spec_timestamps c (ds_sel d)).
 Proof. intros c h d Hc H. exact (timestamps_is_spec c (ds_sel d) Hc (run_wf c h d H)). Qed.
 Print Assumptions C01_timestamps_documented.
+
+(* ------------------------------------------------------------------ per-dump sensors are evaluated AT the timestamps *)
+
+(* tie: the time array that each format's __init__ leaves in its SensorCache, as re-translated from /repo: v1 the
+   data set's own timestamps property (everything selected), v2 a LazyIndexer over the stored timestamps without the
+   duplicate final dump with the SAME linear form as H5DataV2.timestamps, v3 / v4 the very array that the timestamps
+   property masks.  (A conditional / missing restore statement, another array or another linear form breaks this.) *)
+Theorem C01_sensor_grid_source :
+  grid_of V1 = GProperty /\ grid_of V2 = GStoredPrefix tconv_v2 /\ grid_of V3 = GSameArray /\ grid_of V4 = GSameArray.
+Proof. exact grid_translated. Qed.
+Print Assumptions C01_sensor_grid_source.
+
+(* for every data set of every format: sensor.timestamps[:] (the grid on which sensors, virtual sensors and
+   select(timerange=) are evaluated) IS d.timestamps[:] with everything selected -- irregular grids included, the
+   theorem quantifies over every list of stored timestamps *)
+Theorem C01_sensor_cache_holds_the_timestamps : forall c, cfg_ok c -> zlen (c_ts c) = stored_rows c ->
+  cache_ts c = timestamps c (Select.init (c_obs c)).
+Proof. exact cache_is_timestamps. Qed.
+Print Assumptions C01_sensor_cache_holds_the_timestamps.
+
+(* after every history, for every sensor evaluated dump by dump (g = the interpolated stored history of a numeric
+   sensor, the MJD / LST of the time, az / el ...): d.sensor[name] = g at d.timestamps, element by element -- the values
+   of the SAME dumps *)
+Theorem C01_sensors_at_dataset_timestamps : forall A (g : Q -> A) c h d, cfg_ok c -> run c (start c) h = Some d ->
+  zlen (c_ts c) = stored_rows c ->
+  sensor_eval (map g) c (ds_sel d) = map g (timestamps c (ds_sel d)).
+Proof. exact @sensors_history. Qed.
+Print Assumptions C01_sensors_at_dataset_timestamps.
+
+(* ... and for a sensor whose per-dump values depend on the whole grid (categorical sensors: events aligned with the
+   dumps): element i is the value that the data set's full timestamps give to dump dumps[i] *)
+Theorem C01_sensors_of_selected_dumps : forall A (G : list Q -> list A) (d0 : A) c h d i, cfg_ok c ->
+  run c (start c) h = Some d -> zlen (c_ts c) = stored_rows c ->
+  zlen (G (timestamps c (Select.init (c_obs c)))) = nT c -> 0 <= i < zlen (dumps (ds_sel d)) ->
+  nth (Z.to_nat i) (sensor_eval G c (ds_sel d)) d0
+  = nth (Z.to_nat (znth (dumps (ds_sel d)) i)) (G (timestamps c (Select.init (c_obs c)))) d0.
+Proof. exact @sensors_gridwise_history. Qed.
+Print Assumptions C01_sensors_of_selected_dumps.
+
+(* non-vacuity / why the restore statements of v1 and v2 matter: a v2 file whose first and last dumps are on the uniform
+   grid (the "quick test for uniform spacing" passes: last - first = (T - 1) dump periods) but whose second dump is
+   half a second late: the estimated grid first + dump * arange(T) that the cache holds while the scans are built is
+   101, 103, 105, 107, the data set's timestamps (and the cache after __init__) are 101, 103.5, 105, 107 *)
+Theorem C01_estimated_grid_is_not_the_timestamps :
+  cfg_ok ex_late
+  /\ (nth 3 (c_ts ex_late) 0 - nth 0 (c_ts ex_late) 0 == inject_Z (nT ex_late - 1) * c_dump ex_late)%Q
+  /\ timestamps ex_late (Select.init (c_obs ex_late)) = map (conv_t ex_late) [100; 102 + (1 # 2); 104; 106]%Q
+  /\ cache_ts ex_late = map (conv_t ex_late) [100; 102 + (1 # 2); 104; 106]%Q
+  /\ map Qred (grid_ts GSynth ex_late) = [101; 103; 105; 107]%Q
+  /\ map Qred (cache_ts ex_late) = [101; 103 + (1 # 2); 105; 107]%Q.
+Proof. exact estimated_grid_differs. Qed.
+Print Assumptions C01_estimated_grid_is_not_the_timestamps.
+
+(* select(timerange=(a, b)) (dataset.py:771-772 compares sensor.timestamps[:], C02's timerange_mask): when the dump
+   times of the select() model are the cache's times (unit u after t0 -- the harness derives them from the STORED
+   timestamps), a dump is kept iff its DATA SET timestamp lies in [a + dump / 2, b - dump / 2] *)
+Theorem C01_timerange_on_dataset_timestamps : forall c t0 u lo hi, cfg_ok c -> zlen (c_ts c) = stored_rows c ->
+  (0 < u)%Q -> obs_times_ok c t0 u ->
+  Forall2 (fun (b : bool) (t : Q) =>
+             b = true <-> (t0 + inject_Z (lo + Select.o_half (c_obs c)) * u <= t
+                           /\ t <= t0 + inject_Z (hi - Select.o_half (c_obs c)) * u)%Q)
+          (Select.timerange_mask (c_obs c) lo hi) (timestamps c (Select.init (c_obs c))).
+Proof. exact timerange_on_timestamps. Qed.
+Print Assumptions C01_timerange_on_dataset_timestamps.
+
+(* non-vacuity: the late-dump file with times in half seconds after 101: timerange (102.5, 107) keeps the late dump 1
+   (mid-dump 103.5) and dump 2 *)
+Theorem C01_timerange_example : obs_times_ok ex_late 101 (1 # 2)
+  /\ Select.timerange_mask (c_obs ex_late) 3 12 = [false; true; true; false].
+Proof. exact ex_late_times_ok. Qed.
+Print Assumptions C01_timerange_example.
+
+(* FINDING C01r-F1 (open, by design of the v1 / v2 readers): sensors that are extracted WHILE __init__ partitions the
+   data set into scans (v2: activity and target of the reference antenna, the labels; hence Observation/scan_state,
+   scan_index, label, compscan_index, target) are aligned with the array the cache holds at that moment
+   [construction_ts]: the estimate first + dump_period * arange(T) whenever |(last - first) / dump + 1 - T| < 1/100
+   (thresholds and branch structure re-translated from the source).  Full-strength statement refuted, partial one
+   proved: *)
+Theorem C01_construction_grid_refuted :
+  exists c, cfg_ok c /\ zlen (c_ts c) = stored_rows c /\ quick_test c (1, 100) = true
+    /\ construction_ts c <> timestamps c (Select.init (c_obs c)).
+Proof. exact construction_refuted. Qed.
+Print Assumptions C01_construction_grid_refuted.
+
+Theorem C01_construction_grid_partial : forall c, cfg_ok c -> zlen (c_ts c) = stored_rows c ->
+  c_fmt c = V3 \/ c_fmt c = V4 \/ quick_test c (1, 100) = false ->
+  construction_ts c = timestamps c (Select.init (c_obs c)).
+Proof. exact construction_partial. Qed.
+Print Assumptions C01_construction_grid_partial.
 
 (* ------------------------------------------------------------------ non-vacuity, one example per format quirk *)
 
